@@ -77,6 +77,10 @@ func adminGuardianSetUpgradeToVAA(
 		addrs[i] = ethAddr
 	}
 
+	if guardianSetIndex == math.MaxUint32 {
+		return nil, errors.New("guardian set index overflow")
+	}
+
 	v := vaa.CreateGovernanceVAA(governanceChainId, governanceEmitterAddress, timestamp, nonce, sequence, targetChainId, guardianSetIndex,
 		vaa.BodyGuardianSetUpgrade{
 			Keys:     addrs,
@@ -186,6 +190,10 @@ func tokenBridgeRegisterChain(
 		return nil, errors.New("invalid chain_id")
 	}
 
+	if len(req.Module) > 32 {
+		return nil, errors.New("invalid module (expected at most 32 bytes)")
+	}
+
 	b, err := hex.DecodeString(req.EmitterAddress)
 	if err != nil {
 		return nil, errors.New("invalid emitter address encoding (expected hex)")
@@ -220,6 +228,10 @@ func tokenBridgeUpgradeContract(
 	sequence uint64,
 	targetChainId vaa.ChainID,
 ) (*vaa.VAA, error) {
+	if len(req.Module) > 32 {
+		return nil, errors.New("invalid module (expected at most 32 bytes)")
+	}
+
 	payload, err := hex.DecodeString(req.Payload)
 	if err != nil {
 		return nil, errors.New("invalid payload encoding (expected hex)")
@@ -243,6 +255,12 @@ func tokenBridgeDestroyUnexecutedSequenceContracts(
 	sequence uint64,
 	targetChainId vaa.ChainID,
 ) (*vaa.VAA, error) {
+	if req.EmitterChain > math.MaxUint16 {
+		return nil, errors.New("invalid emitter chain")
+	}
+	if len(req.Sequences) > math.MaxUint16 {
+		return nil, errors.New("too many sequences")
+	}
 	v := vaa.CreateGovernanceVAA(governanceChainId, governanceEmitterAddress, timestamp, nonce, sequence, targetChainId, guardianSetIndex,
 		vaa.BodyTokenBridgeDestroyContracts{
 			EmitterChain: vaa.ChainID(req.EmitterChain),
@@ -262,6 +280,9 @@ func tokenBridgeUpdateMinimalConsistencyLevel(
 	sequence uint64,
 	targetChainId vaa.ChainID,
 ) (*vaa.VAA, error) {
+	if req.NewConsistencyLevel > math.MaxUint8 {
+		return nil, errors.New("invalid consistency level")
+	}
 	v := vaa.CreateGovernanceVAA(governanceChainId, governanceEmitterAddress, timestamp, nonce, sequence, targetChainId, guardianSetIndex,
 		vaa.BodyTokenBridgeUpdateMinimalConsistencyLevel{
 			NewConsistencyLevel: uint8(req.NewConsistencyLevel),
@@ -282,6 +303,9 @@ func tokenBridgeUpdateRefundAddress(
 	address, err := hex.DecodeString(req.NewRefundAddress)
 	if err != nil {
 		return nil, errors.New("invalid refund address encoding (expected hex)")
+	}
+	if len(address) > math.MaxUint16 {
+		return nil, errors.New("refund address too long")
 	}
 	v := vaa.CreateGovernanceVAA(governanceChainId, governanceEmitterAddress, timestamp, nonce, sequence, targetChainId, guardianSetIndex,
 		vaa.BodyTokenBridgeUpdateRefundAddress{
